@@ -3,7 +3,7 @@
 Seeded property-breaking changes (written by sub-agents that saw only the property text) live in /verif/seeded/<prop>-<n>/
 (patch.diff, demo.py, meta.json).  This tool
 
-  seedrun.py keep <Cxx> [...]     copy /tmp/seed/out_<Cxx>/change*/ into /verif/seeded/
+  seedrun.py keep <Cxx> [...]     copy /tmp/seed/out_<Cxx>/change*/ into /verif/seeded/   (keep2: second round, /tmp/seed2)
   seedrun.py run [<dir> ...]      for each kept change: demo on the clean tree, `git -C /repo apply`, demo, the repository's
                                   test suite, the registered quick check of the property, `git -C /repo checkout -- .`;
                                   what was observed is written into meta.json under "confirmed"
@@ -22,21 +22,30 @@ def sh(cmd, cwd=None, timeout=7200):
     return p.returncode, (p.stdout + p.stderr)
 
 
-def keep(pids):
+def keep(pids, root='/tmp/seed', offset=0):
     for pid in pids:
-        base = f'/tmp/seed/out_{pid}'
+        base = f'{root}/out_{pid}'
         for ch in sorted(d for d in os.listdir(base) if d.startswith('change')):
             src = os.path.join(base, ch)
             if not os.path.exists(os.path.join(src, 'patch.diff')):
                 continue
-            dst = os.path.join(SEEDED, f'{pid}-{ch.replace("change", "")}')
+            dst = os.path.join(SEEDED, f'{pid}-{int(ch.replace("change", "")) + offset}')
             os.makedirs(dst, exist_ok=True)
             for f in ('patch.diff', 'demo.py', 'meta.json'):
                 shutil.copy(os.path.join(src, f), os.path.join(dst, f))
             print('kept', dst)
 
 
+def snapshot_verif():
+    """a frozen copy of the checks (so that editing /verif while a long evaluation runs does not disturb it)"""
+    snap = '/tmp/verif_snap'
+    sh(f'rm -rf {snap} && mkdir -p {snap} && rsync -a --exclude .git --exclude replays --exclude .ovenv --exclude seeded {VERIF}/ {snap}/ '
+       f'&& ln -s {VERIF}/.ovenv {snap}/.ovenv')
+    return snap
+
+
 def run(dirs):
+    check_dir = snapshot_verif() if os.environ.get('SEEDRUN_SNAPSHOT') else VERIF
     assert sh('git -C /repo status --porcelain --untracked-files=no')[1].strip() == '', '/repo has uncommitted changes'
     head = sh('git -C /repo rev-parse --short HEAD')[1].strip()
     for d in dirs:
@@ -60,7 +69,7 @@ def run(dirs):
                 rc, out = sh(SUITE, cwd='/repo')
                 rec['test_suite_on_changed_tree'] = out.strip().splitlines()[-1] if out.strip() else ''
                 t0 = time.time()
-                rc, out = sh(f'./check {pid}', cwd=VERIF)
+                rc, out = sh(f'./check {pid}', cwd=check_dir)
                 rec['check'] = dict(cmd=f'./check {pid}', exit=rc, wall_s=round(time.time() - t0),
                                     lines=[l[:300] for l in out.splitlines() if l.startswith(('VIOLATION', 'UNDECIDED', 'CHECKER-FAULT'))][:6],
                                     summary=out.strip().splitlines()[-1][:220] if out.strip() else '')
@@ -81,5 +90,7 @@ def run(dirs):
 if __name__ == '__main__':
     if sys.argv[1] == 'keep':
         keep(sys.argv[2:])
+    elif sys.argv[1] == 'keep2':        # second round of sub-agents: /tmp/seed2/out_<Cxx>/change{1,2} -> <Cxx>-3, <Cxx>-4
+        keep(sys.argv[2:], root='/tmp/seed2', offset=2)
     else:
         run(sys.argv[2:] or sorted(os.listdir(SEEDED)))
